@@ -703,12 +703,67 @@ func FnE(name string, args ...Expr) Expr {
 			}
 			return a
 		}
+		// clamp: max(l, min(x,u)) == min(max(x,l), u) for constants l <= u: one canonical atom
+		if cl, ok := asClamp(name, a, b); ok {
+			return cl
+		}
 		// commutative: canonical argument order
 		if a.Key() > b.Key() {
 			args = []Expr{b, a}
 		}
+	case "clamp":
+		// clamp(x; l, u) with constants l <= u
+		x, l, u := args[0], args[1], args[2]
+		if s := signOf(Sub(x, u)); s == SignBigPos || s == SignSmallPos || s == SignZero {
+			return u
+		} else if s2 := signOf(Sub(l, x)); s2 == SignBigPos || s2 == SignSmallPos || s2 == SignZero {
+			return l
+		} else if (s == SignBigNeg || s == SignSmallNeg) && (s2 == SignBigNeg || s2 == SignSmallNeg) {
+			return x
+		}
 	}
 	return atomExpr(&Atom{Kind: AFn, Name: name, Args: append([]Expr{}, args...)})
+}
+
+// asClamp recognises max(const l, min(x, const u)) and min(const u, max(x, const l)) with l <= u.
+func asClamp(name string, a, b Expr) (Expr, bool) {
+	inner, other := "min", "max"
+	if name == "min" {
+		inner, other = "max", "min"
+	}
+	_ = other
+	for _, pr := range [][2]Expr{{a, b}, {b, a}} {
+		c1, ok := pr[0].Const()
+		if !ok {
+			continue
+		}
+		if len(pr[1].terms) != 1 || len(pr[1].terms[0].f) != 1 || pr[1].terms[0].f[0].e != 1 || pr[1].terms[0].c.Cmp(big.NewRat(1, 1)) != 0 {
+			continue
+		}
+		at := pr[1].terms[0].f[0].a
+		if at.Kind != AFn || at.Name != inner || len(at.Args) != 2 {
+			continue
+		}
+		for _, q := range [][2]Expr{{at.Args[0], at.Args[1]}, {at.Args[1], at.Args[0]}} {
+			c2, ok := q[1].Const()
+			if !ok {
+				continue
+			}
+			x := q[0]
+			if _, isC := x.Const(); isC {
+				continue
+			}
+			lo, hi := c1, c2 // name == "max": max(l, min(x,u))
+			if name == "min" {
+				lo, hi = c2, c1 // min(u, max(x,l))
+			}
+			if lo.Cmp(hi) > 0 {
+				continue
+			}
+			return FnE("clamp", x, Num(lo), Num(hi)), true
+		}
+	}
+	return Expr{}, false
 }
 
 // Ind is the 0/1 indicator of a condition.
